@@ -703,20 +703,10 @@ func genXconn(r *rng.R) xconn {
 	n := 1 + r.Intn(4)
 	for i := 0; i < n; i++ {
 		q := genXreq(r, i == n-1)
-		if c.Mode == "M" && !q.Deny {
-			// inside the intercepted tunnel requests are in origin-form; X-Forwarded-Proto would select the
-			// scheme of the next hop (C07's business)
-			q.Target = strings.TrimPrefix(q.Target, "http://{O}")
-			if q.Target == "" || q.Target[0] != '/' {
-				q.Target = "/" + q.Target
-			}
-			var fs []g01rig.Field
-			for _, f := range q.Fields {
-				if !strings.EqualFold(f.Name, "X-Forwarded-Proto") {
-					fs = append(fs, f)
-				}
-			}
-			q.Fields = fs
+		// inside the intercepted tunnel ({O} = the TLS origin) the request goes to its target over TLS whatever the
+		// client wrote: absolute-form http:// targets and client-supplied X-Forwarded-Proto values stay as generated
+		if c.Mode == "M" && !q.Deny && r.Chance(1, 3) && !strings.HasPrefix(q.Target, "http://") {
+			q.Fields = append(q.Fields, g01rig.Field{Name: r.Pick([]string{"X-Forwarded-Proto", "x-forwarded-proto"}), Value: r.Pick([]string{"http", "http", "https", "ws"})})
 		}
 		c.Reqs = append(c.Reqs, q)
 	}
@@ -780,6 +770,13 @@ func xcorpus() []xconn {
 		{Kind: "e2e", Mode: "M", Reqs: []xreq{
 			{Method: "GET", Target: "/inside?tunnel=1", Proto: "HTTP/1.1", Fields: []g01rig.Field{h, {"X-A", "1"}, {"X-A", "2"}, {"Via", "1.1 alpha"}}, Framing: "none"},
 			{Method: "POST", Target: "/upload", Proto: "HTTP/1.1", Fields: []g01rig.Field{h, {"Connection", "x-b"}, {"X-B", "gone"}}, Framing: "chunked", BodyLen: 32768, BodySeed: 5, Chunks: []int{4097, 4095}},
+		}},
+		{Kind: "e2e", Mode: "M", Reqs: []xreq{ // the intercepted session decides the scheme the modifiers see, not the client's words
+			{Method: "GET", Target: "http://{O}/abs-http-inside-tls?x=1", Proto: "HTTP/1.1", Fields: []g01rig.Field{h}, Framing: "none"},
+			{Method: "GET", Target: "/xfp-http-inside-tls", Proto: "HTTP/1.1", Fields: []g01rig.Field{h, {"X-Forwarded-Proto", "http"}}, Framing: "none"},
+			{Method: "POST", Target: "http://{O}/abs-http-and-xfp", Proto: "HTTP/1.1", Fields: []g01rig.Field{h, {"X-Forwarded-Proto", "http"}, {"X-Forwarded-Host", "client.example"}}, Framing: "cl", BodyLen: 100, BodySeed: 17},
+			{Method: "GET", Target: "HTTP://{O}/abs-upper-case-scheme", Proto: "HTTP/1.1", Fields: []g01rig.Field{h, {"X-Forwarded-Url", "http://kept.example/as-sent"}}, Framing: "none"},
+			{Method: "GET", Target: "/xfp-empty-inside-tls", Proto: "HTTP/1.1", Fields: []g01rig.Field{h, {"X-Forwarded-Proto", ""}}, Framing: "none"},
 		}},
 		{Kind: "e2e", Mode: "D", Pipelined: true, Reqs: []xreq{
 			{Method: "POST", Target: "/1", Proto: "HTTP/1.1", Fields: []g01rig.Field{h}, Framing: "cl", BodyLen: 4097, BodySeed: 1},
@@ -856,6 +853,40 @@ func runE2E(r *rng.R, tier, out string, m *meta) {
 		conns = append(conns, xconn{Kind: "e2e", Mode: []string{"D", "U"}[k], TrickleMs: 150, Reqs: []xreq{q,
 			{Method: "GET", Target: fmt.Sprintf("http://{O}/after-expect-%d", k), Proto: "HTTP/1.1", Framing: "none", Fields: []g01rig.Field{{Name: "Host", Value: "{O}"}}}}})
 	}
+	// request bodies larger than anything the proxy buffers for a head (1 MiB + 4 KiB): 1 MiB+4 KiB+1, 2 MiB, 5 MiB+3, with
+	// Content-Length and chunked, as the first request of a connection and after another request on it; only the
+	// length and the byte equality measured at the origin go to Coq
+	for k, n := range []int{1<<20 + 4096 + 1, 2 << 20, 5<<20 + 3} {
+		for f, framing := range []string{"cl", "chunked"} {
+			for pos := 0; pos < 2; pos++ {
+				if tier != "thorough" && n > 4<<20 && pos == 1 && framing == "cl" {
+					continue
+				}
+				mode := []string{"D", "D", "U", "D", "M", "D"}[(k*4+f*2+pos)%6]
+				q := xreq{Method: []string{"PUT", "POST"}[pos], Target: fmt.Sprintf("/big-%d-%s-%d", n, framing, pos), Proto: "HTTP/1.1", BodySeed: r.U64(), BodyLen: n, Framing: framing,
+					Fields: []g01rig.Field{{Name: "Host", Value: "{O}"}, {Name: "Content-Type", Value: "application/octet-stream"}}}
+				if mode == "U" {
+					q.Target = "http://{O}" + q.Target
+				}
+				if framing == "chunked" {
+					for rem, i := n, 0; rem > 0; i++ {
+						c := []int{65536, 60000, 1, 262144, 4097}[i%5]
+						q.Chunks = append(q.Chunks, c)
+						rem -= c
+					}
+				}
+				var reqs []xreq
+				if pos == 1 {
+					first := xreq{Method: "POST", Target: strings.Replace(q.Target, "/big-", "/before-big-", 1), Proto: "HTTP/1.1", BodySeed: r.U64(), BodyLen: 100, Framing: "chunked",
+						Fields: []g01rig.Field{{Name: "Host", Value: "{O}"}}}
+					reqs = append(reqs, first)
+				}
+				reqs = append(reqs, q, xreq{Method: "GET", Target: strings.Replace(q.Target, "/big-", "/after-big-", 1), Proto: "HTTP/1.1", Framing: "none",
+					Fields: []g01rig.Field{{Name: "Host", Value: "{O}"}, {Name: "X-A", Value: "after"}}})
+				conns = append(conns, xconn{Kind: "e2e", Mode: mode, Reqs: reqs})
+			}
+		}
+	}
 	for total < nX {
 		c := genXconn(r)
 		conns = append(conns, c)
@@ -892,7 +923,9 @@ func runE2E(r *rng.R, tier, out string, m *meta) {
 			stats["framing:"+q.Framing]++
 			stats[fmt.Sprintf("position:%d", i)]++
 			stats[fmt.Sprintf("status:%d", o.Status)]++
-			if q.BodyLen >= 32768 {
+			if q.BodyLen > 1<<20+4096 {
+				stats["body>1MiB+4KiB:"+q.Framing+fmt.Sprintf(":position:%d", i)]++
+			} else if q.BodyLen >= 32768 {
 				stats["body>=32KiB"]++
 			} else if q.BodyLen >= 4096 {
 				stats["body>=4KiB"]++
